@@ -275,6 +275,29 @@ pub fn same_stage(a: &Log, b: &Log, s: usize) -> bool {
     a.calls(s, 0) == b.calls(s, 0) && a.calls(s, 1) == b.calls(s, 1) && a.calls(s, 2) == b.calls(s, 2) && a.calls(s, 3) == b.calls(s, 3)
 }
 
+/// sequential outputs of the blocks delivered to one worker (mine[k] per block of size c), with their
+/// keys (source position, position inside the element's outputs), in source order
+pub fn worker_outputs(cl: &Cl, kind: Kind, data: [u8; MAXN], n: usize, c: usize, mine: [bool; MAXN]) -> ([E; 8], [(usize, usize); 8], usize) {
+    let mut out = [E { p: 0, v: 0 }; 8];
+    let mut keys = [(0usize, 0usize); 8];
+    let mut m = 0;
+    let mut i = 0;
+    while i < n {
+        if mine[i / c] {
+            let (o, cnt) = cl.expand(kind, i as u8, data[i]);
+            let mut q = 0;
+            while q < cnt {
+                out[m] = o[q];
+                keys[m] = (i, q);
+                m += 1;
+                q += 1;
+            }
+        }
+        i += 1;
+    }
+    (out, keys, m)
+}
+
 /// same call counts for every (stage, position)
 pub fn same_call_multiset(a: &Log, b: &Log) -> bool {
     same_stage(a, b, 0) && same_stage(a, b, 1) && same_stage(a, b, 2) && same_stage(a, b, 3)
